@@ -16,7 +16,7 @@ From Coq Require Import String.
 From Coq Require Import List ZArith Bool Arith Reals.
 Import ListNotations.
 From FV.C10.gen Require Import FaceTables.
-From FV.C10 Require Import Model Groups ProofsTables ProofsGeom ProofsSurface ProofsClosed ProofsViews ProofsFistr ProofsWf ProofsManifold ObjText ProofsObjText.
+From FV.C10 Require Import Model Groups ProofsTables ProofsGeom ProofsSurface ProofsClosed ProofsViews ProofsFistr ProofsWf ProofsManifold ObjText ProofsObjText ProofsHexprism ObjVText ProofsObjVText.
 
 (* every translated face table (tet, tet2, pyr, prism, hex; hexprism too) is
    closed: each directed edge occurs once and its reverse once; indices are in
@@ -153,6 +153,43 @@ Theorem C10_obj_text_faces :
     mapM parse_face_line (obj_text_faces tri quad) = Some (obj_faces (write_obj coords tri quad)).
 Proof. intros C. exact (@obj_text_faces_parse C). Qed.
 
+(* the WHOLE OBJ text at character level: with the rendering of one float (repr) and its parser
+   (float()) as parameters satisfying parse (fmt x) = Some x and "fmt x is a non-empty blank-free
+   token", the lines OBJWriter.write produces ("v x y z" per node, then the f lines) are read by
+   the model of ObjData.read_nodes / read_elements (lines starting with the token v / f, split at
+   blanks) to exactly the token-level model write_obj — to which C10_obj_roundtrip applies *)
+Theorem C10_obj_text_parses :
+  forall {F} (fmt : F -> string) (parse : string -> option F),
+    (forall x, parse (fmt x) = Some x) -> (forall x, is_token (fmt x)) ->
+    forall coords tri quad,
+      parse_lines parse (obj_text fmt coords tri quad) = Some (write_obj coords tri quad).
+Proof. intros F fmt parse H1 H2. exact (obj_text_parses fmt parse H1 H2). Qed.
+
+Theorem C10_obj_text_roundtrip :
+  forall {F} (fmt : F -> string) (parse : string -> option F),
+    (forall x, parse (fmt x) = Some x) -> (forall x, is_token (fmt x)) ->
+    forall coords tri quad,
+      Forall (fun f => length f = 3) tri -> Forall (fun f => length f = 4) quad ->
+      option_map read_obj (parse_lines parse (obj_text fmt coords tri quad))
+      = Some {| o_nodes := number_from 1%Z coords;
+                o_tri := number_from 1%Z (map face1 tri);
+                o_quad := number_from (1 + Z.of_nat (length tri))%Z (map face1 quad);
+                o_polygon := [] |}.
+Proof.
+  intros F fmt parse H1 H2 coords tri quad Ht Hq.
+  rewrite (obj_text_parses fmt parse H1 H2). cbn [option_map]. f_equal.
+  apply obj_roundtrip; assumption.
+Qed.
+
+(* the hexprism table (translated; closed by C10_table_closed) is oriented outwards on every affine
+   image of an integer reference hexagonal prism *)
+Theorem C10_hexprism_table_outward :
+  forall f, In f (concat tbl_hexprism) -> forall a : affine,
+    outward2 ROps (map (aff a) ref_hexprism) (pick_pts (map (aff a) ref_hexprism) f)
+    = (detM a * outward2 ROps ref_hexprism (pick_pts ref_hexprism f))%R
+    /\ (0 < outward2 ROps ref_hexprism (pick_pts ref_hexprism f))%R.
+Proof. exact hexprism_outward. Qed.
+
 (* (element id, face number) view for tetrahedra (tet / tet2 meshes): (i, n)
    is returned exactly when element i exists and its face number n (columns
    of the translated face-number table) has the node set of a surface face *)
@@ -197,6 +234,15 @@ Example C10_hypotheses_satisfiable :
   /\ length (all_faces ex_mesh) = 8 /\ length (surface_sorted ex_mesh) = 6
   /\ length (surface_fistr ex_mesh) = 6.
 Proof. vm_compute. repeat split. Qed.
+
+(* non-vacuity of the text-level premises: integers printed in decimal are an instance of (fmt, parse) *)
+Example C10_text_premises_satisfiable :
+  (forall z, undec (dec z) = Some z) /\ (forall z, is_token (dec z))
+  /\ obj_text dec [(0, -5, 12)%Z] [[0; 1; 2]%nat] [] = ["v 0 -5 12"; "f 1 2 3"]%string
+  /\ parse_lines undec ["v 0 -5 12"; "vn 0 0 1"; "f 1 2 3"]%string = Some [OV (0, -5, 12)%Z; OF [1; 2; 3]%Z]
+  /\ parse_lines undec ["v 0 -5"]%string = None
+  /\ length (concat tbl_hexprism) = 10 /\ length ref_hexprism_Z = 12.
+Proof. split; [exact undec_dec |]. split; [exact dec_token |]. vm_compute. repeat split. Qed.
 
 Print Assumptions C10_table_outward.
 Print Assumptions C10_surface_volume.
